@@ -218,7 +218,7 @@ class CtlWorld:
         reader = asyncio.StreamReader()
         writer = FakeWriter(self, s)
         self.sessions[s] = {"reader": reader, "writer": writer, "writes": 0, "task": None, "lines": 0, "unanswered": []}
-        self.ev("connect", s=s, width=width)
+        self.ev("connect", s=s, width=0 if width is None else width)      # 0 = JSON null: the width is left to the server
         task = self.loop.create_task(self.session_main(s, reader, writer), name="S%d" % s)
         self.sessions[s]["task"] = task
         if handshake:
